@@ -37,14 +37,20 @@ var findings = []kit.Finding[Case]{
 				return false
 			}
 			var qi int
-			if _, err := fmt.Sscanf(f.Detail, "[q=%d ", &qi); err != nil || qi < 0 || qi >= len(c.Queries) {
+			if _, err := fmt.Sscanf(f.Detail, "[q=%d ", &qi); err != nil || qi < 0 || qi >= len(c.allQueries()) {
 				return false
 			}
 			reg := modelOf(c)
 			if reg == nil {
 				return false
 			}
-			want := reg.resolve(c.Queries[qi])
+			// a query of a later round ("[q=3 r=2 ...") is judged against the registry of that round
+			var r int
+			if _, err := fmt.Sscanf(f.Detail, "[q=%d r=%d ", &qi, &r); err == nil && r >= 0 && r <= len(c.Edits) {
+				regs, _ := reg.rounds(c.Edits)
+				reg = regs[r]
+			}
+			want := reg.resolve(c.allQueries()[qi])
 			if want == nil {
 				return false
 			}
